@@ -94,10 +94,12 @@ def whole(r):
     return r[:-2] if r.endswith('.0') else r
 
 
-def run_variants(lib, ast, env, texts, kind, must, want=None):
+def run_variants(lib, ast, env, texts, kind, must, want=None, shared=None):
+    """shared: a long-lived Harnessed of the same environment on which all texts (of this and of earlier observations)
+    are evaluated - formulas that differ only inside a quoted literal must not be mistaken for one another"""
     vs = []
     for t in texts:
-        h = F.Harnessed(lib, env)
+        h = shared or F.Harnessed(lib, env)
         o = h.parse(t, again=len(t) % 3 == 2)
         o['text'] = t
         if want is not None:     # the raw result as Python prints it (for the exactness of literals)
@@ -214,17 +216,24 @@ def main(tier, replay=None):
             lex = str(rng.randint(10 ** 9, 10 ** 18)) + '%'
         obs.append(run_variants(lib, F.num(lex), base_env(), [lex, '(' + lex + ')'], 'lit', True, want=spelled(lex)))
     # C2S: quoted literals over Unicode, both delimiters
-    for _ in range(1500 if quick else 40000):
+    longlived = F.Harnessed(lib, base_env())
+    prev = None
+    for i in range(1500 if quick else 40000):
         q = rng.choice(['"', "'"])
         s = rand_string(rng, q)
+        if i % 4 == 1 and prev:
+            # a sibling of the previous literal: the same text with other white space inside the quotes
+            q, s = prev
+            s = s.replace(' ', '  ', 1) if ' ' in s else s.replace('\t', ' ') if '\t' in s else s + ' '
         if s.endswith('\\'):
             s += 'x'
+        prev = (q, s)
         node = F.string(s, q)
         ast = rng.choice([node, F.call('REC', node), F.binop('&', node, F.string(rand_string(rng, q).replace('\\', '/'), q)),
                           F.binop('=', node, node)])
         t = render(ast)
         texts = [t, render(ast, lambda: rng.choice(WS))]
-        obs.append(run_variants(lib, ast, base_env(), texts, 'str', True))
+        obs.append(run_variants(lib, ast, base_env(), texts, 'str', True, shared=longlived if i % 4 in (0, 1) else None))
     # text arguments that are, or contain, a separator character - in calls and arrays of every separator style
     for t1 in (',', ';', '\\\\'.replace('\\\\', chr(92)), ', ', 'a;b', ';;', ',,'):
         for shape in (lambda x: F.call('REC', F.num('1'), x), lambda x: F.call('REC', x, x, F.num('2')),
